@@ -165,3 +165,12 @@ func TestC09UnevaluatedExpression(t *testing.T) {
 		t.Errorf("Query whose key condition selects nothing accepted the filter %q", flt)
 	}
 }
+
+// KF-C06-size-of-missing: size() of an attribute the item does not have is an error, not an operand without a value.
+func TestC06SizeOfMissingAttribute(t *testing.T) {
+	item := map[string]*types.Item{"s": s("x")}
+	r, err, c := match("size(nosuch) > :v", item, map[string]*types.Item{":v": n("1")}, nil)
+	if c != nil || err != nil || r {
+		t.Errorf("size(nosuch) > :v on an item without nosuch: res=%v err=%v crash=%v, want false", r, err, c)
+	}
+}
